@@ -1532,11 +1532,12 @@ fn drive_lin_one(a: &Args, name: &String, tr: &mut Tracer) -> Counts {
                         let _ = fin_tx.send(t);
                     });
                 }
-                // wait for the threads; "no call completed for 2 x 4 s while calls are in flight" = the callers hang
+                // wait for the threads; "no call completed for 15 x 4 s while calls are in flight" = the callers hang
+                // (generous on purpose: a loaded or briefly stalled machine must not look like a deadlock)
                 let mut finished = 0usize;
                 let mut stalled = 0;
                 let mut seen = 0usize;
-                while finished < threads && stalled < 2 {
+                while finished < threads && stalled < 15 {
                     match fin_rx.recv_timeout(std::time::Duration::from_secs(4)) {
                         Ok(_) => finished += 1,
                         Err(_) => {
